@@ -8,6 +8,7 @@ import PygModel.USet
 import PygModel.DictCall
 import PygProofs.Lemmas.USetLemmas
 import PygProofs.Lemmas.DictCallLemmas
+import PygProofs.Lemmas.DictCallOrder
 
 namespace Pyg.Props.C16
 open Pyg Pyg.USet Pyg.DA Pyg.DictCall
@@ -337,12 +338,9 @@ theorem call_cycle_raises (d consts : Env V) (cs : List (String × Fn V)) (S : L
     call d consts cs = .error .value ∨ call d consts cs = .error .type :=
   loop_closed_raises S a b ha hb hab _ _ cs (Nat.le_refl _) hS
 
-/-- PARTIAL (evaluation-order independence): the callables that are ready in a round are the same
-for every keyword order.  Not proved: that evaluating one round's (mutually independent) callables
-in two orders gives the same mapping, and hence that `call` is invariant under permutations of the
-keyword list; this is sampled exhaustively (all graphs on ≤ 3 derived keys in all orders in quick,
-≤ 4 in thorough) and by random permutations. -/
-theorem call_rounds_order_independent_partial (cs cs' : List (String × Fn V)) (h : cs.Perm cs') :
+/-- the callables that are ready in a round, and those left for later rounds, are the same sets for
+every keyword order (first step of `call_keyword_order_independent`) -/
+theorem call_rounds_order_independent (cs cs' : List (String × Fn V)) (h : cs.Perm cs') :
     (cs.filter (independent (cs.map (·.1)))).Perm (cs'.filter (independent (cs'.map (·.1)))) ∧
     (cs.filter fun c => !independent (cs.map (·.1)) c).Perm
       (cs'.filter fun c => !independent (cs'.map (·.1)) c) := by
@@ -351,6 +349,107 @@ theorem call_rounds_order_independent_partial (cs cs' : List (String × Fn V)) (
     funext c; exact independent_perm _ _ hk c
   rw [e]
   exact ⟨h.filter _, h.filter _⟩
+
+/-- KEYWORD ORDER.  For every mapping `d` and every two orders of the same keyword list (keyword
+names are distinct; `consts` the plain values, `cs` the callables) `d(**kwargs)` has the same
+outcome: the same error kind, or mappings that hold the same value under every key (`ResEq`; python
+`==` on dicts does not compare insertion order).  No acyclicity is needed for this part: circular
+or ill-scoped definitions fail the same way in every order. -/
+theorem call_keyword_order_independent (d consts consts' : Env V) (cs cs' : List (String × Fn V))
+    (hcn : (consts.map (·.1)).Nodup) (hc : consts.Perm consts')
+    (hn : (cs.map (·.1)).Nodup) (hp : cs.Perm cs') :
+    ResEq (call d consts cs) (call d consts' cs') := by
+  unfold call
+  rw [← hp.length_eq]
+  exact loop_perm _ _ _ cs cs' (Nat.le_refl _) hn hp (setAll_perm d hcn hc)
+
+/-- DEPENDENCY ORDER.  If the dependency graph of the callables (edges: declared argument names that
+are themselves pending callables) is acyclic and has no self-loop, then
+(a) the definitions can be put in dependency order,
+(b) for EVERY permutation of the keyword list, `d(**kwargs)` has the outcome of plain sequential
+    evaluation `for k, f in ts: res[k] = res.apply(f)` in ANY dependency order `ts` (in particular all
+    dependency orders agree, and `ValueError` is never raised), and
+(c) all keyword orders agree. -/
+theorem call_order_independent (d consts consts' : Env V) (cs cs' : List (String × Fn V))
+    (hcn : (consts.map (·.1)).Nodup) (hc : consts.Perm consts')
+    (hn : (cs.map (·.1)).Nodup) (hp : cs.Perm cs') (hac : Acyclic cs) :
+    (∃ ts, ts.Perm cs ∧ Topo ts) ∧
+    (∀ ts, ts.Perm cs → Topo ts →
+      ResEq (call d consts' cs') (evalAll (setAll d consts) ts)) ∧
+    ResEq (call d consts' cs') (call d consts cs) := by
+  have hperm := call_keyword_order_independent d consts consts' cs cs' hcn hc hn hp
+  refine ⟨(acyclic_iff_exists_topo cs hn).1 hac, fun ts hts ht => ?_, hperm.symm⟩
+  exact hperm.symm.trans (loop_eq_topo _ _ cs ts (Nat.le_refl _) hn hts ht)
+
+/-- WHAT IS COMPUTED.  Over an acyclic set of definitions the returned mapping is THE solution of
+the definitions: keys that are not derived keep the value of `{**d, **consts}`, and every derived
+key holds its function applied to the FINAL values of its declared arguments (so a dependent of a
+callable that redefines an existing key of `d` sees the new value); that solution is unique.  The
+call fails exactly when some declared argument is neither a derived key nor a key of
+`{**d, **consts}`, and then with `TypeError`. -/
+theorem call_spec (d consts : Env V) (cs : List (String × Fn V)) (hn : (cs.map (·.1)).Nodup)
+    (hac : Acyclic cs) :
+    (∀ r, call d consts cs = .ok r →
+      Spec (setAll d consts) cs r ∧ ∀ r', Spec (setAll d consts) cs r' → EnvEq r r') ∧
+    (∀ e, call d consts cs = .error e ↔ e = .type ∧ Missing (setAll d consts) cs) := by
+  obtain ⟨ts, hts, ht⟩ := (acyclic_iff_exists_topo cs hn).1 hac
+  have hnt : (ts.map (·.1)).Nodup := (hts.map _).nodup_iff.2 hn
+  have hm : ∀ c, c ∈ ts ↔ c ∈ cs := fun c => hts.mem_iff
+  have hres : ResEq (call d consts cs) (evalAll (setAll d consts) ts) :=
+    loop_eq_topo _ _ cs ts (Nat.le_refl _) hn hts ht
+  constructor
+  · intro r hr
+    obtain ⟨r0, hr0, he⟩ := hres.ok_left hr
+    have hs0 : Spec (setAll d consts) ts r := (evalAll_topo_spec ts _ r0 hnt ht hr0).of_envEq he
+    refine ⟨hs0.congr (EnvEq.refl _) hm, fun r' hs' => ?_⟩
+    exact Spec.unique ht (EnvEq.refl _) hm hs0 hs'
+  · intro e
+    rw [hres.error_iff e]
+    constructor
+    · intro he
+      exact ⟨evalAll_err ts _ e he,
+        ((evalAll_topo_error_iff ts _ ht).1 ⟨e, he⟩).congr (EnvEq.refl _) hm⟩
+    · rintro ⟨rfl, hmiss⟩
+      obtain ⟨e', he'⟩ := (evalAll_topo_error_iff ts _ ht).2
+        (hmiss.congr (EnvEq.refl _) fun c => (hm c).symm)
+      rw [he', evalAll_err ts _ e' he']
+
+/-- CIRCULAR DEFINITIONS, iff form.  `ValueError` is raised only if some set of at least two pending
+keys is closed under "reads a member of the set"; conversely (`call_cycle_raises`) such a set makes
+the call fail, and with `ValueError` when every declared argument is in scope (`WellScoped`: a
+pending key other than the callable's own, or a key of `{**d, **consts}`), because then no round
+can raise `TypeError`.  Under `WellScoped` the call therefore returns a mapping exactly when there
+is no such set. -/
+theorem call_cycle_raises_iff (d consts : Env V) (cs : List (String × Fn V))
+    (hn : (cs.map (·.1)).Nodup) :
+    (call d consts cs = .error .value →
+      ∃ (S : List String) (a b : String), a ∈ S ∧ b ∈ S ∧ a ≠ b ∧ Closed S cs) ∧
+    (WellScoped (setAll d consts) cs →
+      ((call d consts cs = .error .value ↔
+        ∃ (S : List String) (a b : String), a ∈ S ∧ b ∈ S ∧ a ≠ b ∧ Closed S cs) ∧
+       ((∃ r, call d consts cs = .ok r) ↔
+        ¬ ∃ (S : List String) (a b : String), a ∈ S ∧ b ∈ S ∧ a ≠ b ∧ Closed S cs))) := by
+  have h1 := loop_value_closed cs.length (setAll d consts) cs hn
+  refine ⟨h1, fun hw => ?_⟩
+  have hnt := loop_no_type_error cs.length (setAll d consts) cs (Nat.le_refl _) hw
+  have h2 : (∃ (S : List String) (a b : String), a ∈ S ∧ b ∈ S ∧ a ≠ b ∧ Closed S cs) →
+      call d consts cs = .error .value := by
+    rintro ⟨S, a, b, ha, hb, hab, hS⟩
+    rcases call_cycle_raises d consts cs S a b ha hb hab hS with h | h
+    · exact h
+    · exact absurd h hnt
+  refine ⟨⟨h1, h2⟩, ?_⟩
+  constructor
+  · rintro ⟨r, hr⟩ hS
+    have := h2 hS
+    rw [hr] at this; cases this
+  · intro hno
+    cases hr : call d consts cs with
+    | ok r => exact ⟨r, rfl⟩
+    | error e =>
+      rcases loop_err _ _ _ e hr with rfl | rfl
+      · exact absurd (h1 hr) hno
+      · exact absurd hr hnt
 
 /-- a single callable is evaluated on the values found by name -/
 theorem call_single (d : Env V) (k : String) (f : Fn V) :
@@ -378,5 +477,33 @@ example : DictCall.Closed ["p", "q"] [("r", (⟨["a"], fun _ => 0⟩ : Fn Int)),
   rcases hk with rfl | rfl
   · exact ⟨("p", fp), by simp, rfl, "q", by simp [fp], by simp⟩
   · exact ⟨("q", fq), by simp, rfl, "p", by simp [fq], by simp⟩
+
+/-- `Dict(a = 1, b = 2)(c = 10, y = lambda x, c: x + c, x = lambda a, b: a + b, a = lambda b: 100 + b)`:
+`a` redefines a key of the mapping, `x` must see the NEW `a`, `y` the new `x` -/
+private def sumFn (as : List String) (k : Int) : Fn Int := ⟨as, fun vs => vs.foldl (· + ·) k⟩
+private def exD : Env Int := [("a", 1), ("b", 2)]
+private def exCs : List (String × Fn Int) :=
+  [("y", sumFn ["x", "c"] 0), ("x", sumFn ["a", "b"] 0), ("a", sumFn ["b"] 100)]
+private def exTs : List (String × Fn Int) :=
+  [("a", sumFn ["b"] 100), ("x", sumFn ["a", "b"] 0), ("y", sumFn ["x", "c"] 0)]
+
+example : Topo exTs := by
+  refine ⟨?_, ?_, ?_, trivial⟩ <;> simp [sumFn]
+example : exTs.Perm exCs := (List.reverse_perm exTs).symm
+example : Acyclic exCs :=
+  (acyclic_iff_exists_topo exCs (by decide)).2
+    ⟨exTs, (List.reverse_perm exTs).symm, by refine ⟨?_, ?_, ?_, trivial⟩ <;> simp [sumFn]⟩
+example : call exD [("c", 10)] exCs =
+    .ok [("a", 102), ("b", 2), ("c", 10), ("x", 104), ("y", 114)] := rfl
+example : evalAll (setAll exD [("c", 10)]) exTs =
+    .ok [("a", 102), ("b", 2), ("c", 10), ("x", 104), ("y", 114)] := rfl
+example : WellScoped (setAll exD [("c", 10)]) exCs := by
+  intro c hc a ha
+  simp only [exCs, List.mem_cons, List.not_mem_nil, or_false] at hc
+  rcases hc with rfl | rfl | rfl <;> simp [sumFn] at ha <;> rcases ha with rfl | rfl <;> decide
+/-- an argument that is nowhere: `Missing`, and the call raises `TypeError` -/
+example : Missing exD [("x", sumFn ["a", "zz"] 0)] :=
+  ⟨("x", sumFn ["a", "zz"] 0), by simp, "zz", by simp [sumFn], by simp, by decide⟩
+example : call exD [] [("y", sumFn ["x"] 0), ("x", sumFn ["a", "zz"] 0)] = .error .type := rfl
 
 end Pyg.Props.C16
